@@ -196,7 +196,8 @@ Proof. vm_compute. reflexivity. Qed.
 (* ---- pruned read: get_dask_array(..., index = unit-step slices) ---- *)
 
 (* FULL statement wanted: for every index, requested chunks = stored chunks overlapping the selection.
-   It fails for EMPTY selections (see C07_pruned_read_empty_refuted, findings C07-F2/F3), so the guard
+   The equality of the request SET fails for EMPTY selections (see C07_pruned_requests_empty_refuted, finding C07-F3;
+   data and boundaries hold for every selection: C07_pruned_read_data), so the guard
    "every normalised slice is non-empty" is spelled out: then the chunks requested (after pruning, dask culling and
    offset shifting) are exactly the blocks of the ORIGINAL chunking that overlap the selection, in order, with
    unchanged boundaries. *)
@@ -238,11 +239,34 @@ Theorem C07_prune_axis_keeps_boundaries : forall cs s e,
 Proof. exact prune_axis_requests. Qed.
 Print Assumptions C07_prune_axis_keeps_boundaries.
 
-(* the empty selection 2:2 on chunks (2,2,2): a zero-size chunk (2,2) that is no block of the chunking is requested,
-   its name collides with the stored chunk (2,4) and the read fails with BadChunk instead of returning [] *)
-Example C07_pruned_read_empty_refuted :
+(* FULL strength for the DATA and the BOUNDARIES, for EVERY unit-step index -- empty selections included (possible since
+   _prune_chunks always retains a chunk: katdal fix d72167c of finding C07-F2, which the model now follows):
+   the read returns exactly array[index], and every chunk requested is a block of the stored chunking (no chunk
+   boundary is altered), for every element type, prior store content, chunking with non-empty positive axes. *)
+Theorem C07_pruned_read_data : forall (A : Type) (d : A) (miss : option A) (st : store A) (arr : str) (dt : Z)
+    (f : list Z -> A) (chunks : list (list Z)) (index : list (option Z * option Z)),
+  Forall (fun cs => cs <> [] /\ Forall (fun c => 0 < c) cs) chunks ->
+  let r := get_array_index d miss (fst (put_array st arr dt f chunks [])) arr dt chunks index in
+  snd r = Ok (map f (spec_index_points chunks index))
+  /\ forall b, In b (fst r) -> In b (blocks chunks).
+Proof. exact pruned_read_all_top. Qed.
+Print Assumptions C07_pruned_read_data.
+
+(* ANY selection on one axis: the pruned chunking is a non-empty run of consecutive chunks of the original one and the
+   slice is shifted by exactly the total size of the chunks dropped in front *)
+Theorem C07_prune_axis_structure : forall cs s e, cs <> [] ->
+  exists pre cs' post,
+    cs = pre ++ cs' ++ post /\ cs' <> [] /\
+    prune_axis cs (s, e) = (cs', (s - sumZ pre, e - sumZ pre), sumZ pre).
+Proof. exact prune_axis_struct. Qed.
+Print Assumptions C07_prune_axis_structure.
+
+(* what remains `_partial` (finding C07-F3): the empty selection 2:2 on chunks (2,2,2) returns [] as it must, but the
+   real chunk (2,4) is still requested although no chunk overlaps the selection (dask takes block 0 of the pruned
+   chunking).  Before d72167c the request was the phantom zero-size chunk (2,2) and the read failed with BadChunk. *)
+Example C07_pruned_requests_empty_refuted :
   let st := fst (put_array [] [120] 7 (fun p => nth 0 p 0) [[2;2;2]] []) in
-  get_array_index (-1) None st [120] 7 [[2;2;2]] [(Some 2, Some 2)] = ([[(2, 2)]], Err EBadChunk)
+  get_array_index (-1) None st [120] 7 [[2;2;2]] [(Some 2, Some 2)] = ([[(2, 4)]], Ok [])
   /\ spec_requested [[2;2;2]] [(Some 2, Some 2)] = []
   /\ spec_index_points [[2;2;2]] [(Some 2, Some 2)] = [].
 Proof. vm_compute. auto. Qed.
